@@ -186,6 +186,26 @@ def correspond(ctx):
                 ctx.violation('c11:alias:' + name, 'mutating the result of %s in place changed an operand (f = `%s`, g = `%s`)' % (name, ta, tb),
                               {'f': ta, 'g': tb, 'op': name})
                 break
+    # directed: indexing a scalar function that contains a sum of max / min / abs terms (the term has to be expanded into one term per
+    # component); every index form of a length-1 function returns a function with the same value
+    same_len = [v for v in g.vars if len(v) == len(g.vars[1])]
+    if len(same_len) >= 2:
+        a_, b_ = same_len[0], same_len[1]; c_ = g.vars[0]
+        for vset in vals:
+            for v, x in zip(g.vars, vset): v.value = cvxopt.matrix(x)
+            forms = {'sum(max(a,b))': lambda: M.sum(M.max(a_, b_)), 'sum(min(a,b,0))': lambda: M.sum(M.min(a_, b_, 0.0)), 'sum(abs(a-b))': lambda: M.sum(abs(a_ - b_)),
+                     '2*sum(min(a,b))+c-1': lambda: 2.0 * M.sum(M.min(a_, b_)) + (c_ if len(c_) == 1 else M.sum(c_)) - 1.0, 'sum(max(a,b))-sum(min(a,b))': lambda: M.sum(M.max(a_, b_)) - M.sum(M.min(a_, b_))}
+            for nm, mk in forms.items():
+                try: F = mk(); ref = list(F.value())
+                except (TypeError, ValueError): continue
+                for itok, idx in (('[0]', 0), ('[-1]', -1), ('[:]', slice(None)), ('[0:1]', slice(0, 1)), ('[[0]]', [0])):
+                    try: Gf = F[idx]; got = list(Gf.value()); lg = len(Gf)
+                    except Exception as ex:
+                        ctx.violation('c11:exception:' + type(ex).__name__, 'indexing `%s`%s raised %s: %s' % (nm, itok, type(ex).__name__, ex), {'expr': nm + itok}); continue
+                    alias_checked += 1
+                    if lg != 1 or len(got) != 1 or abs(got[0] - ref[0]) > 1e-12 * (1 + abs(ref[0])):
+                        ctx.violation('c11:value', 'expression `(%s)%s`: modeling layer gives %r (length %d), the formula gives %r' % (nm, itok, got, lg, ref), {'expr': nm + itok, 'values': [list(v.value) for v in g.vars]})
+        for v, x in zip(g.vars, vals[0]): v.value = cvxopt.matrix(x)
     out = vlib.drive('C11', lines)
     dis = 0
     for l, o, m, t in zip(lines, obs, out, toks):
